@@ -114,6 +114,8 @@ QSLICES = {
     "C12": ["cap2", "cap_weight2", "cap2_tti"],
     "C13": ["cap2", "cap_weight2", "cap_const2"],
     "C16": ["cap2", "expiry2", "s_nocap", "s_ttl_tti"],
+    "C14": ["cap2", "cap_const2"],
+    "C08": ["cap2", "cap_weight2", "cap1_ttl", "s_cap1", "s_cap2_w", "s_cap1_ttl"],
 }
 
 SEQ_PLANS = {}
@@ -354,6 +356,113 @@ def stage_v(ctx, runs):
         os.remove(trace)
 
 
+def sketch_trace_check(ctx, name, trace, dev=()):
+    cfg = os.path.join(ctx.wd, name + ".cfg")
+    V.write_cfg(cfg, constants={"SkDev": set(dev)}, postcondition="Consumed")
+    rc, outp, wall = V.run_tlc(ctx.wd, "TraceSketch.tla", cfg, workers=1, timeout=900, out=name + ".out",
+                               depth_first=True, xmx="6g", env_extra={"TRACE": trace})
+    txt = open(outp, errors="replace").read()
+    m = re.search(r'<<"STATS", "(.*)">>', txt)
+    if rc == -9 or not m or "No error has been found" not in txt:
+        e = re.search(r"Error: (.*)", txt)
+        raise ToolError("sketch trace validation failed (%s): %s" % (outp, e.group(1) if e else "no STATS"))
+    st = json.loads(m.group(1).replace('\\"', '"'))
+    viol = [(x.group(1), int(x.group(2)), int(x.group(3)))
+            for x in re.finditer(r'<<"VIOL", "(C\d+)", (-?\d+), (\d+)>>', txt)]
+    drift = [(int(x.group(1)), int(x.group(2))) for x in re.finditer(r'<<"DRIFT", (-?\d+), (\d+)>>', txt)]
+    log("[trace] %-24s %6d events %4d behaviours  viol=%d drift=%d  %.1fs" % (
+        name, st["events"], st["behaviours"], len(viol), len(drift), wall))
+    return st, viol, drift
+
+
+def stage_sketch(ctx):
+    """The popularity estimator on its own: Sketch.tla x monitor, edge replay and random streams
+    through the facade."""
+    quick = ctx.tier == "quick"
+    fams = ["a0", "a1", "b2"] + ([] if quick else ["c3"])
+    for fam in fams + (["c3"] if quick else []):
+        depth = 0 if (fam != "c3" or not quick) else 9
+        consts = {"SkDev": set(), "Family": fam, "Emit": False, "MaxDepth": depth}
+        r = V.model_check(ctx.wd, "sk_" + fam, "MC_Sketch.tla", consts, ["Ok", "NoCrash"],
+                          constraints=["Stop"] + (["Depth"] if depth else []), view="View" if depth else None,
+                          workers=8, timeout=900)
+        ctx.mc.append({k: r[k] for k in ("name", "distinct", "generated", "ok", "wall_s", "timeout")})
+        ctx.states += r["distinct"]
+        ctx.transitions += r["generated"]
+        if not r["ok"] and not r["timeout"]:
+            ctx.model_failures.append(("sk_" + fam, r["violated"] or r["error"], r["out"]))
+    # mode R: one stream per edge, hashes concretised by search through the facade
+    for fam, depth in [("a1", 12), ("b2", 8 if quick else 11), ("c3", 5 if quick else 7)]:
+        name = "skr_" + fam
+        cfg = os.path.join(ctx.wd, name + ".cfg")
+        V.write_cfg(cfg, constants={"SkDev": set(), "Family": fam, "Emit": True, "MaxDepth": depth},
+                    constraints=["Depth"], view="View")
+        rc, outp, wall = V.run_tlc(ctx.wd, "MC_Sketch.tla", cfg, workers=1, timeout=900, out=name + ".out")
+        r = V.parse_mc(outp)
+        if not r["ok"]:
+            raise ToolError("sketch emission %s failed: %s" % (name, r["violated"] or r["error"]))
+        beh = os.path.join(ctx.wd, name + ".beh.ndjson")
+        n = parse_edges(outp, beh)
+        os.remove(outp)
+        trace = os.path.join(ctx.wd, name + ".trace.ndjson")
+        rr = V.harness(["sketch", "replay", beh, trace])
+        if rr.returncode != 0:
+            raise ToolError("sketch replay failed: " + rr.stderr[-1500:])
+        summ = json.loads(rr.stdout.strip().splitlines()[-1])
+        log("[replay] %-24s %6d streams (one per edge of %d states) %7d increments  mismatching=%d" % (
+            name, n, r["distinct"], summ["events"], len(summ["mismatches"])))
+        ctx.replayed += n
+        ctx.replay_events += summ["events"]
+        ctx.traces_ok += n - len(summ["mismatches"])
+        if summ["mismatches"]:
+            st, viol, drift = sketch_trace_check(ctx, name + "_bad", trace)
+            sketch_verdict(ctx, name, trace, viol, drift)
+    # mode V: random skewed streams at capacities 0 .. 2^20
+    name = "skv"
+    trace = os.path.join(ctx.wd, name + ".trace.ndjson")
+    count, length = (36, 300) if quick else (240, 1500)
+    rr = V.harness(["sketch", "random", str(ctx.seed), str(count), str(length), trace])
+    if rr.returncode != 0:
+        raise ToolError("sketch driver failed: " + rr.stderr[-1500:])
+    st, viol, drift = sketch_trace_check(ctx, name, trace)
+    ctx.events += st["events"]
+    ctx.nontrivial += st["nt"]
+    ctx.conform += st["conform"]
+    ctx.traces_ok += st["behaviours"] - len({b for (_, b, _) in viol})
+    sketch_verdict(ctx, name, trace, viol, drift)
+    with open(trace) as f:
+        head = [json.loads(next(f)) for _ in range(4)]
+    ctx.samples.append({"kind": "estimator stream through the facade", "events": head})
+
+
+def sketch_verdict(ctx, name, trace, viol, drift):
+    lines = None
+    seen = set()
+    for (p, bid, line) in viol:
+        if p != ctx.prop or bid in seen:
+            continue
+        seen.add(bid)
+        if lines is None:
+            lines = V.read_lines(trace)
+        evs, idx = behaviour_sk(lines, line)
+        path = V.write_replay(p, {"kind": "sketch", "config": evs[0]}, [e.get("g") for e in evs[1:]], evs, idx,
+                              "sketch:" + name)
+        ctx.violation(path, "estimator event %d of stream %d rejected by monitor %s" % (idx, bid, p))
+    for (bid, line) in drift[:10]:
+        ctx.drift.append({"source": name, "behaviour": bid, "line": line})
+
+
+def behaviour_sk(lines, line_no):
+    i = line_no - 1
+    start = i
+    while start > 0 and lines[start].get("ev") != "SkConfig":
+        start -= 1
+    end = i + 1
+    while end < len(lines) and lines[end].get("ev") != "SkConfig":
+        end += 1
+    return lines[start:end], i - start
+
+
 def stage_findings(ctx):
     """Open findings of this property: run the recorded history; report it while it still fails."""
     for f in V.load_findings():
@@ -439,6 +548,8 @@ def run_property(prop, tier, seed):
     stage_mc(ctx, plan.get("mc", []))
     stage_r(ctx, plan.get("r", []))
     stage_v(ctx, plan.get("v", []))
+    if prop in ("C14", "C08"):
+        stage_sketch(ctx)
     stage_findings(ctx)
     return finish(ctx)
 
